@@ -119,7 +119,7 @@ theorem surv_ackOpen {p : Packet} {s s' : St} {c seq ph : Nat} {isTimeout isErr 
               · cases ha
               · rename_i s2 he
                 cases ha
-                exact key.of_packets (frame_eibcOnRefund he).packets
+                exact key.of_packets (frame_eibcOnRefund (eibcRefundHandler_ok he)).packets
             · cases ha
               exact key
 
@@ -263,6 +263,11 @@ theorem pending_persists (s : St) (op : Op) (hb : BoundedOp op) (h4 : Inv04 s) (
   | block => exact Or.inl (h.of_packets rfl)
   | chanClose c => exact Or.inl (surv_ofM h (fun _ e => h.of_packets (frame_setChanClosed e).packets))
   | chanOpen c => exact Or.inl (surv_ofM h (fun _ e => h.of_packets (frame_setChanClosed e).packets))
+  | timeoutOnClose c seq => exact Or.inl (surv_ofM h (fun _ e => by unfold timeoutOnClose at e; split at e <;> cases e; exact h))
+  | sendBlk a c d amt =>
+    exact Or.inl (surv_ofM h (fun _ e => by
+      obtain ⟨s1, hs, rfl⟩ := sendBlk_ok e
+      exact h.of_packets (frame_sendOpen hs).1))
 
 theorem same_trans {p q r : Packet} (h1 : Same p q) (h2 : Same q r) : Same p r := by
   obtain ⟨a1, a2, a3⟩ := h1
